@@ -439,3 +439,46 @@ func VH_C02_files() {
 	vAssert("C02.files.one-file-per-query-named-after-it", len(f1) > 0 && len(f2) > 0)
 	vAssert("C02.files.files-hold-the-pairs-in-stdout-form", f1+f2 == all)
 }
+
+// VH_C02_history: two queries handled one after the other by the same toPairAlign worker (as with -t 1, or
+// whenever a worker takes two groups): each pair must be the pair that query gives when it is processed alone
+// by a fresh worker -- nothing may be carried from one query to the next. Both insertion modes.
+func VH_C02_history() {
+	L := vParam("L")
+	O := vParam("O")
+	ML := vParam("ML")
+	ref := make([]byte, L)
+	for i := range ref {
+		ref[i] = vNuc(vName("ref", i), "ACGT")
+	}
+	omitIns := vBool("skipInsertions")
+	v1 := vSamRecord("q1", 0, L, O, ML, []int{vM, vI, vD})
+	v2 := vSamRecord("q2", 1, L, O, ML, []int{vM, vI, vD})
+	run := func(groups []samRecords) []alignPair {
+		cSR := make(chan samRecords, len(groups))
+		for _, g := range groups {
+			cSR <- g
+		}
+		close(cSR)
+		cPair := make(chan alignPair, len(groups))
+		cErr := make(chan error, 8)
+		blockToPairwiseAlignment(cSR, cPair, cErr, append([]byte{}, ref...), omitIns)
+		vAssert("C02.history.pairs-built", len(cPair) == len(groups) && len(cErr) == 0)
+		var out []alignPair
+		for len(cPair) > 0 {
+			p := <-cPair
+			out = append(out, alignPair{ref: append([]byte{}, p.ref...), query: append([]byte{}, p.query...), queryname: p.queryname, idx: p.idx})
+		}
+		return out
+	}
+	g1 := samRecords{records: []biogosam.Record{v1.rec}, idx: 0}
+	g2 := samRecords{records: []biogosam.Record{v2.rec}, idx: 1}
+	a1 := run([]samRecords{g1})
+	a2 := run([]samRecords{g2})
+	both := run([]samRecords{g1, g2})
+	if len(a1) != 1 || len(a2) != 1 || len(both) != 2 {
+		return
+	}
+	vAssert("C02.history.first-query-as-alone", string(both[0].ref) == string(a1[0].ref) && string(both[0].query) == string(a1[0].query) && both[0].queryname == "q1")
+	vAssert("C02.history.second-query-independent-of-first", string(both[1].ref) == string(a2[0].ref) && string(both[1].query) == string(a2[0].query) && both[1].queryname == "q2")
+}
